@@ -65,6 +65,25 @@ def gen_doubles(ctx, n):
         add("unit", bits(r.random() * r.choice([1, 1, 10, 1000, 1e-5, 1e-10, 1e-17])))
     for _ in range(n // 12):
         add("random64", r.getrandbits(64))
+    # magnitudes below 2^-63, down to the subnormals: the "%.*f" continuation of DoubleToCharacters after
+    # the 35-digit table (the former known-finding class K5), densely
+    for b in (1, 2, 3, 0x000FFFFFFFFFFFFF, 0x0010000000000000, 0x0010000000000001, bits(5e-324), bits(2.2250738585072014e-308),
+              bits(1e-40), bits(1.2345678901234567e-20), bits(2.0 ** -64), bits(2.0 ** -63), bits(1e-323), bits(9.9e-324)):
+        add("tiny_fixed", b)
+        add("tiny_fixed", b | (1 << 63))
+    for e in range(-1074, -60, 5 if not ctx.thorough else 1):
+        around("tiny_pow2", math.ldexp(1.0, e), 1)
+    for e in range(-323, -17, 3 if not ctx.thorough else 1):
+        around("tiny_pow10", float("1e%d" % e), 1)
+    for _ in range(n // 10):   # subnormals: every mantissa width
+        w = r.randrange(1, 53)
+        add("subnormal", (r.getrandbits(1) << 63) | (r.getrandbits(w) | (1 << (w - 1))))
+    for _ in range(n // 8):   # normal numbers below 2^-63, uniform over the exponent field 1..959
+        e = r.randrange(1, 960)
+        add("tiny_uniform", (r.getrandbits(1) << 63) | (e << 52) | r.getrandbits(52))
+    for _ in range(n // 20):  # few significant decimal digits at a tiny scale (short numerals, long zero runs)
+        x = float("%de-%d" % (r.randrange(1, 10 ** r.randrange(1, 18)), r.randrange(18, 340)))
+        add("tiny_decimal", bits(x) | (r.getrandbits(1) << 63))
     return out
 
 
@@ -142,9 +161,27 @@ SYNTAX = re.compile(r"^(NaN|Infinity|-Infinity|-?(0|[1-9][0-9]*)(\.[0-9]*[1-9])?
 NUMBER = re.compile(r"^[ \t\r\n]*(-?)([0-9]+(\.[0-9]*)?|\.[0-9]+)[ \t\r\n]*$")
 
 
-def in_class_K5(x):
-    """known finding K5: |x| below 2^-63 — the 35-digit printf limit loses precision"""
-    return x == x and x != 0 and abs(x) < 2.0 ** -63
+def exact_nearest(s):
+    """the double nearest to the decimal numeral s, by exact rational arithmetic (ties to even):
+    independent of float()'s parser"""
+    q = Fraction(s)
+    if q == 0:
+        return -0.0 if s.startswith("-") else 0.0
+    neg, q = q < 0, abs(q)
+    e = q.numerator.bit_length() - q.denominator.bit_length()      # 2^(e-1) < q < 2^(e+1)
+    if Fraction(2) ** e > q:
+        e -= 1                                                       # 2^e <= q < 2^(e+1)
+    ex = max(e - 52, -1074)                                          # exponent of the last place
+    scaled = q / Fraction(2) ** ex
+    m = scaled.numerator // scaled.denominator
+    rem = scaled - m
+    if rem > Fraction(1, 2) or (rem == Fraction(1, 2) and m % 2 == 1):
+        m += 1
+    try:
+        y = math.ldexp(float(m), ex)                                 # m <= 2^53: exact
+    except OverflowError:
+        y = float("inf")
+    return -y if neg else y
 
 
 def in_class_K13(s):
@@ -163,9 +200,18 @@ def oracle_n2s(x, s):
         return "leading '-' for a non-negative value"
     if s in ("NaN",) or (s in ("Infinity", "-Infinity")) != math.isinf(x):
         return "string(%r) = %r" % (x, s)
+    if math.isinf(x):
+        return None if s == ("Infinity" if x > 0 else "-Infinity") else "string(%r) = %r" % (x, s)
+    if x == 0:
+        return None if s == "0" else "string(%r) = %r" % (x, s)
     y = float(s)
     if y != x:
         return "number(string(x)) = %r differs from x = %r (string %r)" % (y, x, s)
+    z = exact_nearest(s)
+    if z != x or math.copysign(1.0, z) != math.copysign(1.0, x):
+        return "the double nearest to the numeral %r is %r (exact rational arithmetic), not x = %r" % (s, z, x)
+    if Fraction(s) == 0:
+        return "string(%r) = %r denotes zero" % (x, s)
     return None
 
 
@@ -229,6 +275,9 @@ def case_line(c):
 def evaluate(ctx, cases, impl, model, check_known=True):
     """Run both sides and the oracle. Returns (corr_mismatches, oracle_failures) as lists of dicts."""
     lines = [case_line(c) for c in cases]
+    # the processes get contiguous chunks: deal the lines round-robin so that the expensive classes
+    # (tiny magnitudes: some 20 conversions of 1000-bit numbers each in the model) are spread evenly
+    lines = [l for k in range(core.NPROC) for l in lines[k::core.NPROC]]
     rc_i, res_i, raw_i = core.run_lines_parallel(impl, lines)
     rc_m, res_m, raw_m = core.run_lines_parallel(model, lines) if model else (0, {}, "")
     corr, orc = [], []
@@ -262,8 +311,7 @@ def evaluate(ctx, cases, impl, model, check_known=True):
             else:
                 msg = oracle_n2s(x, s)
             if msg:
-                known = "K5" if (in_class_K5(x) and "differs from x" in msg) else None
-                orc.append({"case": case_line(c), "what": msg, "known": known})
+                orc.append({"case": case_line(c), "what": msg, "known": None})
         elif kind == "s2n":
             exp = ref_s2n(payload)
             if show(exp) != ri:
@@ -278,15 +326,31 @@ def evaluate(ctx, cases, impl, model, check_known=True):
     return corr, orc
 
 
+def load_corpus(names, have):
+    """regression inputs stored as case lines under corpus/C18/"""
+    import os
+    out = []
+    for name in names:
+        path = os.path.join(core.VERIF, "corpus", "C18", name)
+        for line in open(path):
+            t = line.split()
+            if len(t) == 3 and not line.startswith("#") and t[0] not in have and t[1] in ("n2s", "round", "floor", "ceil"):
+                out.append((t[0], t[1], int(t[2], 16), "corpus"))
+                have.add(t[0])
+    return out
+
+
 def run(ctx):
     ctx.notes["rule"] = ("doubles from boundary streams (powers of 2 and 10, ties, 2^53/2^63 neighbourhoods, subnormals, "
-                         "uniform over exponents) and strings (valid numerals of every length, integer numerals around the widths "
+                         "uniform over exponents, magnitudes below 2^-63 down to the smallest subnormal) and strings (valid numerals of every length, integer numerals around the widths "
                          "of int/long/unsigned, mutated numerals, random over the alphabet); distinct = distinct (operation, input) "
                          "pairs; non-trivial = input is not one of the fixed special values (NaN, infinities, zeros)")
     ctx.assumptions += [
         "glibc sprintf(\"%.Nf\") prints the exact decimal expansion rounded half-even and atof is correctly rounded (modelled in Z arithmetic; validated on every run by the correspondence)",
         "the comparison 'x - floor(x) >= 0.5' in DoubleSupport::round is modelled exactly (argued exact in the source; boundary stream x.5 +- 1ulp)",
         "strings contain no NUL code unit (c_str semantics are modelled, the oracle skips them)",
+        "frexp() returns the exponent e with |x| = f * 2^e, 1/2 <= f < 1, also for subnormals (modelled as digits2(m) + e; exercised by the subnormal streams of the correspondence)",
+        "the round-trip theorems use Flocq 4.1's correctness of division/rounding (real-number reasoning): standard-library axioms of the classical reals (sig_forall_dec, sig_not_dec, functional_extensionality_dep, classic) appear in their Print Assumptions",
     ]
     ok_lib, liblog = core.build_lib("plain")
     if not ok_lib:
@@ -304,12 +368,14 @@ def run(ctx):
 
     # corpus first: replays of known findings and of fixed defects
     known = {k["key"]: k for k in ctx.known.for_property("C18")}
-    corpus = [("k0", "n2s", 0x37A16C262777579C, "corpus"),      # 1e-40 (K5)
+    corpus = [("k0", "n2s", 0x37A16C262777579C, "corpus"),      # 1e-40 (K5, repaired: regression)
               ("k1", "n2s", bits(1.2345678901234567e-20), "corpus"),
+              ("k3", "n2s", bits(-1e-40), "corpus"), ("k4", "n2s", 1, "corpus"), ("k5", "n2s", (1 << 63) | 1, "corpus"),
               ("k2", "s2n", "-0", "corpus"),                      # K13
               ("f0", "n2s", bits(1e89), "corpus"), ("f1", "n2s", 0x7FEFFFFFFFFFFFFF, "corpus"),   # F5
               ("f2", "round", 0x3FDFFFFFFFFFFFFF, "corpus"), ("f3", "round", 0x4330000000000001, "corpus"),
               ("f4", "round", bits(-0.2), "corpus"), ("f5", "round", bits(-0.5), "corpus")]          # F6
+    corpus += load_corpus(("k5.txt",), {c[0] for c in corpus})
     n_d, n_s = (3000, 3000) if not ctx.thorough else (40000, 30000)
     cases = corpus + make_cases(ctx, n_d, n_s)
     ctx.cov["samples"] = [case_line(c) for c in cases[:4] + cases[len(cases) // 2: len(cases) // 2 + 4]]
